@@ -1,0 +1,22 @@
+//go:build verif
+
+package http3
+
+// VerifDialState (property C12 hook) reports the state of the connection entry the round tripper
+// holds for an authority (host:port): "none" (no entry), "dialing" (the QUIC dial has not returned
+// yet), "done" (it has returned, successfully or not).
+func (r *RoundTripper) VerifDialState(authority string) string {
+	addr := authorityAddr(authority)
+	r.mutex.Lock()
+	defer r.mutex.Unlock()
+	cl, ok := r.clients[addr]
+	if !ok {
+		return "none"
+	}
+	select {
+	case <-cl.dialing:
+		return "done"
+	default:
+		return "dialing"
+	}
+}
